@@ -140,4 +140,17 @@ theorem C07_source_skeletons_2 :
     Gen.Skel.DB_WriteJournalAt = Expected.Skel.DB_WriteJournalAt :=
   ⟨rfl, rfl, rfl, rfl⟩
 
+/-- the pieces that carry "a request scoped to the node's term as primary is refused once the
+    lease is lost" (fix 55d1f52): the primary-scoped context cancels a derived context with
+    `ErrLeaseExpired` (so `context.Cause` reports it), the blocking lock operations return that
+    cause, and the import handler runs the import under such a context. -/
+theorem C07_source_skeletons_3 :
+    Gen.Skel.fn_newPrimaryCtx = Expected.Skel.fn_newPrimaryCtx ∧
+    Gen.Skel.primaryCtx_Err = Expected.Skel.primaryCtx_Err ∧
+    Gen.Skel.RWMutexGuard_Lock = Expected.Skel.RWMutexGuard_Lock ∧
+    Gen.Skel.RWMutexGuard_RLock = Expected.Skel.RWMutexGuard_RLock ∧
+    Gen.Skel.DB_AcquireWriteLock = Expected.Skel.DB_AcquireWriteLock ∧
+    Gen.Skel.Server_handlePostImport = Expected.Skel.Server_handlePostImport :=
+  ⟨rfl, rfl, rfl, rfl, rfl, rfl⟩
+
 end LiteFSVerif.C07
